@@ -7,6 +7,7 @@
 package cli
 
 import (
+	"regexp"
 	"encoding/base64"
 	"encoding/json"
 	"fmt"
@@ -255,6 +256,7 @@ type CommitRec struct {
 	Snapshot map[string]string
 	Parent   string
 	Message  string
+	Tree     string
 }
 
 func NewHistory() *History {
@@ -397,6 +399,8 @@ func (e *Exec) Do(st Step) error {
 	return nil
 }
 
+var symbolicID = regexp.MustCompile(`\{\{(tree|commit)#(\d+)\}\}`)
+
 func (e *Exec) resolve(st Step) Step {
 	if st.Op != "goit" {
 		return st
@@ -404,6 +408,23 @@ func (e *Exec) resolve(st Step) Step {
 	out := st
 	out.Args = append([]string{}, st.Args...)
 	for i, a := range out.Args {
+		// {{tree#n}} / {{commit#n}} anywhere inside an argument (a message that quotes an id)
+		if strings.Contains(a, "{{") {
+			out.Args[i] = symbolicID.ReplaceAllStringFunc(a, func(m string) string {
+				sub := symbolicID.FindStringSubmatch(m)
+				var n int
+				fmt.Sscanf(sub[2], "%d", &n)
+				if len(e.H.Order) == 0 {
+					return strings.Repeat("b", 40)
+				}
+				id := e.H.Order[n%len(e.H.Order)]
+				if sub[1] == "tree" {
+					return e.H.Commits[id].Tree
+				}
+				return id
+			})
+			continue
+		}
 		if !strings.HasPrefix(a, "@commit#") {
 			continue
 		}
@@ -504,7 +525,7 @@ func learnCommits(c *Ctx) {
 		if err != nil {
 			continue
 		}
-		rec := &CommitRec{ID: id, Message: cm.Message}
+		rec := &CommitRec{ID: id, Message: cm.Message, Tree: cm.Tree}
 		if len(cm.Parents) > 0 {
 			rec.Parent = cm.Parents[0]
 		}
